@@ -275,6 +275,54 @@ def incentive_factory(ck):
         ck.oblige('C19.incentivef.reply.fails_on_error', p, p.ok or len(p.world.writes) != 0, 'the reply of a failed instantiate returns an error and writes nothing (restores atomicity for reply_on: Always)')
 
 
+def pagination_more(ck):
+    """vault factory and incentive factory listings: paging with any page size returns every entry exactly once."""
+    progv = ck.program('vault_factory', 'white_whale_std'); progi = ck.program('incentive_factory', 'white_whale_std')
+    names = ['uatom', 'uluna', 'uusd']
+    VQ = 'white_whale_std::vault_network::vault_factory::QueryMsg'
+    def body_v(it):
+        it.extra = {}; c = it.ctx; C16.vfactory_setup(it); env = mk_env(it, 10**18)
+        it.world.map('vaults', [([Str(nm)], Agg('tuple', [ADDR('vault_' + nm), ainfo(it, ('native', nm))])) for nm in names])
+        lim = c.sym('limit', 32); c.assume(lim >= 1)
+        seen = []; cursor = NONE()
+        for rnd in range(4):
+            q = enter(it, 'vault_factory', 'query', env, None, it.mkv(VQ, 'Vaults', start_after=cursor, limit=SOME(lim)))
+            if q.variant != 'Ok': raise PathPruned()
+            page = q.fields[0].fields[0].payload.fields[0].items
+            if not page: break
+            seen += [deref(x.fields[0]).s for x in page]
+            cursor = SOME(dup(page[-1].fields[2]))
+        it.extra['seen'] = seen
+        return OK(UNIT())
+    n = 0
+    for p in ck.explore(progv, body_v, 'vault_factory.pagination', unroll=80):
+        if p.kind != 'ret': continue
+        n += 1
+        ck.oblige('C19.pagination.once.vaults', p, sorted(p.extra['seen']) != sorted('vault_' + nm for nm in names), 'paging through the vault registry with any page size returns every vault exactly once')
+    ck.require(n >= 1, 'vault pagination: no complete path')
+    def body_i(it):
+        it.extra = {}; c = it.ctx; C16.ifactory_setup(it); env = mk_env(it, 10**18)
+        it.world.map('incentive_mappings', [([Str(nm)], ADDR('incentive_' + nm)) for nm in names])
+        lim = c.sym('limit', 32); c.assume(lim >= 1)
+        seen = []; cursor = NONE()
+        for rnd in range(4):
+            q = enter(it, 'incentive_factory', 'query', env, None, it.mkv(LI.IF + 'QueryMsg', 'Incentives', start_after=cursor, limit=SOME(lim)))
+            if q.variant != 'Ok': raise PathPruned()
+            page = q.fields[0].fields[0].payload.items if isinstance(q.fields[0].fields[0].payload, VecV) else q.fields[0].fields[0].payload.fields[0].items
+            if not page: break
+            seen += [deref(x.fields[0]).fields[0].s for x in page]
+            last_ref = deref(page[-1].fields[1])
+            cursor = SOME(ainfo(it, ('native', last_ref.s)))
+        it.extra['seen'] = seen
+        return OK(UNIT())
+    n = 0
+    for p in ck.explore(progi, body_i, 'incentive_factory.pagination', unroll=80):
+        if p.kind != 'ret': continue
+        n += 1
+        ck.oblige('C19.pagination.once.incentives', p, sorted(p.extra['seen']) != sorted('incentive_' + nm for nm in names), 'paging through the incentive registry with any page size returns every entry exactly once')
+    ck.require(n >= 1, 'incentive pagination: no complete path')
+
+
 def router_routes(ck):
     import c15 as C15
     prog = ck.program('terraswap_router', 'white_whale_std')
@@ -314,10 +362,10 @@ def router_routes(ck):
 
 def main():
     ck = Check('C19')
-    pool_factory(ck); trio_factory(ck); vault_factory(ck); incentive_factory(ck); router_routes(ck)
+    pool_factory(ck); trio_factory(ck); vault_factory(ck); incentive_factory(ck); pagination_more(ck); router_routes(ck)
     ck.bounds.update(assets='universe of 3 native + 1 cw20 assets; quick: 4 ordered pairs, thorough: all 12', registry='pagination over 3 stored pairs with a symbolic page size',
                      symbolic='decimals, code ids, fees, page size; asset names and reply addresses concrete (byte-string key code)')
-    ck.outside += ['collisions of un-delimited concatenated byte keys', 'pagination of vaults / incentives', 'router executing hops only through registered pairs: C14/C15 router obligations']
+    ck.outside += ['collisions of un-delimited concatenated byte keys', 'pagination of trios', 'router executing hops only through registered pairs: obligation C19.router.exec.only_registered in the C14 check (router part)']
     return ck.finish()
 
 
